@@ -243,8 +243,13 @@ def _explain_worker(task):
                         if type(raised) is not V: return f'{label}: raised {type(raised).__name__} instead of the configured {V.__name__}: {raised}'[:250]
                         msg = str(raised)
                         cul = getattr(raised, 'culprits', None)
-                        if cul is not None and not (len(cul) >= 1 and (cul[0] is o or cul[0] == repr(o) or isinstance(cul[0], str))):
-                            return f'{label}: culprits do not begin with the rejected object: {cul!r}'[:200]
+                        # "culprits begin with the rejected object": the object itself whenever it can be weakly referenced (it is alive here);
+                        # its repr only for objects CPython cannot weakly reference (documented limitation: builtin scalars / containers)
+                        import weakref
+                        try: weakref.ref(o); can_ref = True
+                        except TypeError: can_ref = False
+                        if cul is not None and not (len(cul) >= 1 and (cul[0] is o or (not can_ref and isinstance(cul[0], str)))):
+                            return f'{label}: culprits do not begin with the rejected object (weakly referenceable: {can_ref}): {cul!r}'[:200]
                     return None
                 for label, thunk, V in (('die_if_unbearable', lambda: die_if_unbearable(o, hint, conf=conf), Vd), ('parameter', lambda: gp(o), Vp), ('return', lambda: gr(o), Vr)):
                     o = eval(osrc, shapes.NS); replaylib.force_draw(r)
@@ -263,7 +268,7 @@ def object_palette():
             out += [f'{{{a}}}', f'frozenset([{a}])', f'{{{a}: {a}}}', f'{{1: {a}}}', f'{{{a}: 1}}', f'Counter([{a}])', f'defaultdict(list, {{{a}: {a}}})', f'{{{a}: 1}}.keys()', f'{{1: {a}}}.values()', f'{{{a}: 1}}.items()']
         else:
             out += [f'{{1: {a}}}', f"{{'a': {a}}}", f'{{1: {a}}}.values()']
-    out += ['[]', '()', '{}', 'set()', 'deque()', '(x for x in [1])', "((x for x in [1]), 'bad')", "(OneShot([1]), 'bad')", "[OneShot(['bad']), 5]", "(1, OneShot([1]))"]
+    out += ['[]', '()', '{}', 'set()', 'deque()', 'frozenset()', 'OrderedDict()', 'EmptySized()', 'Counter()', '(x for x in [1])', "((x for x in [1]), 'bad')", "(OneShot([1]), 'bad')", "[OneShot(['bad']), 5]", "(1, OneShot([1]))"]
     return out
 
 def explain(rep, tier, seed):
